@@ -160,7 +160,7 @@ def _random_body(ch: core.Chooser, depth: int, budget_: List[int]) -> List[dict]
         budget_[0] -= 1
         c = ch.sub(i)
         kind = c.weighted([
-            (5 if depth < 4 else 0, "block"), (4, "set"), (2, "set_invalid"), (2, "enter_invalid"), (2, "get_mutate"),
+            (5 if depth < 4 else 0, "block"), (4, "set"), (2, "set_invalid"), (2, "enter_invalid"), (1, "set_badvalue"), (2, "get_mutate"),
             (2 if depth else 0, "raise"), (3, "op"), (2 if depth else 0, "op_fault"), (3 if depth < 4 else 0, "catch"),
             (1 if depth else 0, "leave"), (2 if depth < 4 else 0, "genblock"), (1 if depth < 4 else 0, "decorated"),
         ])
@@ -175,6 +175,8 @@ def _random_body(ch: core.Chooser, depth: int, budget_: List[int]) -> List[dict]
             body.append({"k": "set_invalid", "kw": _kw(c.sub("kw"), 0, 3), "bad": c.choice(BAD_KEYS), "bad_first": c.chance(0.5)})
         elif kind == "enter_invalid":
             body.append({"k": "enter_invalid", "kw": _kw(c.sub("kw"), 0, 3), "bad": c.choice(BAD_KEYS), "bad_first": c.chance(0.5)})
+        elif kind == "set_badvalue":
+            body.append({"k": "set_badvalue", "kw": {k: v for k, v in _kw(c.sub("kw"), 1, 3).items() if k != "varname_filter"}, "bad_first": c.chance(0.4), "enter": c.chance(0.5)})
         elif kind == "get_mutate":
             body.append({"k": "get_mutate", "which": c.choice(["current", "defaults", "yielded"])})
         elif kind == "raise":
@@ -306,6 +308,30 @@ class Interp:
             self.model.update(node["kw"])
             self.check(nid, "after-set", "set_options")
             self._sync_if_bad()
+            return None
+        if k == "set_badvalue":
+            # an ill-formed value (an unbalanced regular expression): the statement promises nothing about values,
+            # but an update is atomic either way - applied completely if the call returns, not at all if it raises
+            self.nontrivial = True
+            kw = {**node["kw"], "varname_filter": "(unbalanced"} if not node.get("bad_first") else {"varname_filter": "(unbalanced", **node["kw"]}
+            try:
+                if node.get("enter"):
+                    with self.np.global_options(**kw):
+                        pass
+                    applied = False  # a block that was entered and left restores everything
+                else:
+                    self.np.set_options(**kw)
+                    applied = True
+            except BaseException:  # noqa: BLE001
+                applied = False
+                self.bump("fault:bad_value.raised")
+            if applied:
+                self.model.update(kw)
+            self.check(nid, "after-bad-value", "set_options" if not node.get("enter") else "global_options")
+            self._sync_if_bad()
+            if applied:  # do not leave the ill-formed filter behind for later operations
+                self.np.set_options(varname_filter=_DEFAULTS["varname_filter"])  # type: ignore[index]
+                self.model["varname_filter"] = _DEFAULTS["varname_filter"]  # type: ignore[index]
             return None
         if k == "set_invalid":
             self.nontrivial = True
